@@ -229,12 +229,12 @@ def approx_real(file_t):
         unw = ", unwind 3" if p[:3] in ("rm2", "cm2") else ""
         emit(file_t, f"approx_real!{{c20_{p}_abs_diff_eq_real, c20_{p}_relative_eq_real, c20_{p}_ulps_eq_real, w_{p}_abs_diff_eq_real, w_{p}_relative_eq_real, w_{p}_ulps_eq_real, {ty}, {mk}, [{accs}], kissat{unw}}}")
         meta(f"c20_{p}_abs_diff_eq_real", "thorough", f"abs_diff_eq on {ty} == conjunction over elements of the REAL scalar f32 abs_diff_eq (no stub)",
-             REAL_DOM + "epsilon any f32", timeout=900)
+             REAL_DOM + "epsilon any f32", bounded="element magnitudes <= f32::MAX/2 (or NaN); the unrestricted f32 domain is covered by the corresponding *_uf harness", timeout=900)
         meta(f"c20_{p}_relative_eq_real", "thorough", f"relative_eq on {ty} == conjunction over elements of the REAL scalar f32 relative_eq (no stub)",
              REAL_DOM + "epsilon any f32, max_relative == f32::default_max_relative() (= f32::EPSILON, concrete)",
-             bounded="max_relative fixed to the default; element magnitudes <= f32::MAX/2", timeout=900)
+             bounded="max_relative fixed to the default; element magnitudes <= f32::MAX/2 (or NaN); the unrestricted domain (any max_relative) is covered by the corresponding *_uf harness", timeout=900)
         meta(f"c20_{p}_ulps_eq_real", "thorough", f"ulps_eq on {ty} == conjunction over elements of the REAL scalar f32 ulps_eq (no stub)",
-             REAL_DOM + "epsilon any f32, max_ulps any u32", timeout=900)
+             REAL_DOM + "epsilon any f32, max_ulps any u32", bounded="element magnitudes <= f32::MAX/2 (or NaN); the unrestricted f32 domain is covered by the corresponding *_uf harness", timeout=900)
 
 def shapes(file_q):
     A = "kani::any()"
